@@ -11,6 +11,13 @@
    byte-level action / crash outcome of a disk corresponds to L2's), restarts
    and failed fsyncs, and the composition with the WAL operations and the crash
    histories of crash_refinement by a lock-step run of the byte disk.
+   Section 7 (Link/IndexStart*.v): the IndexStart recorded in the metadata is
+   the index start of the file, in every state of every accepted history, hence
+   GetLog down to bytes without side hypothesis (Link_get_log).  Section 8
+   (Link/FaultDisk*.v, FaultLink*.v, FaultIS*.v): the histories with injected
+   I/O errors of Wal/FaultHist.v (C10) at byte level -- stale bytes behind the
+   valid chain, restarts re-establishing "image, then zeros", GetLog and the
+   nominal state of fault_safety from bytes.
 
    Vocabulary (Link/Abs.v):
      enc l                 the bytes stored for record l (its BinaryCodec encoding)
